@@ -60,37 +60,34 @@ Definition st1 := final tcfg init_sys h1.
 Definition st2 := final tcfg init_sys h2.
 Definition st3 := final tcfg init_sys h3.
 
-(* the calls on which model and reference differ: CreateFile on an existing regular file, or with content by a
-   process whose identity is not 0/0/""/"" (T02Counter.v (1), (2)); [tcfg] has uid 7, gid 8 *)
+(* the calls on which model and reference differ: CreateFile on an existing regular file (T02Counter.v (2)); [tcfg]
+   has uid 7, gid 8, so CreateFile with content on a new name is tested with an identity that is not 0/0/""/"" *)
 Definition is_corner (st : sys) (k : call) : bool :=
   match k with
-  | CCreateFile n d =>
-    match d with [] => false | _ => true end
-    || match lookup (abs st) n with Some v => negb (is_dir v) | None => false end
+  | CCreateFile n d => match lookup (abs st) n with Some v => negb (is_dir v) | None => false end
   | _ => false
   end.
 
 (* every call of [all_calls] (9 call kinds on 14 names, and all 196 renames) that is not such a corner agrees with
-   the reference in each of the three states, and every corner call disagrees or agrees as T02Counter.v says *)
+   the reference in each of the three states, and every corner call disagrees (the modification time, T02Counter.v (2)) *)
 Example test_st3 : forallb (fun k => is_corner st3 k || check tcfg st3 (e0 99) k) all_calls = true.
 Proof. vm_compute. reflexivity. Qed.
 Example test_st1 : forallb (fun k => is_corner st1 k || check tcfg st1 (e0 99) k) all_calls = true.
 Proof. vm_compute. reflexivity. Qed.
 Example test_st2 : forallb (fun k => is_corner st2 k || check tcfg st2 (e0 99) k) all_calls = true.
 Proof. vm_compute. reflexivity. Qed.
+Example test_corners_differ :
+  forallb (fun st => forallb (fun k => negb (check tcfg st (e0 99) k)) (filter (is_corner st) all_calls)) [st1; st2; st3] = true /\
+  map (fun st => length (filter (is_corner st) all_calls)) [st1; st2; st3] = [6; 4; 0]%nat.
+Proof. vm_compute. split; reflexivity. Qed.
 Example test_count : (length all_calls, closedb (abs st1), closedb (abs st2), closedb (abs st3)) = (322%nat, true, true, true).
 Proof. vm_compute. reflexivity. Qed.
-(* with the identity 0/0/""/"" only CreateFile on an existing regular file differs *)
+(* the same with the identity 0/0/""/"" *)
 Definition rcfg : cfg := {| c_rs := 3; c_csuf := []; c_esuf := []; c_readonly := false; c_uid := 0; c_gid := 0;
                             c_uname := []; c_gname := [] |}.
-Definition is_corner0 (st : sys) (k : call) : bool :=
-  match k with
-  | CCreateFile n d => match lookup (abs st) n with Some v => negb (is_dir v) | None => false end
-  | _ => false
-  end.
 Definition st1r := final rcfg init_sys h1.
 Definition st2r := final rcfg init_sys h2.
-Example test_st1_root : forallb (fun k => is_corner0 st1r k || check rcfg st1r (e0 99) k) all_calls = true.
+Example test_st1_root : forallb (fun k => is_corner st1r k || check rcfg st1r (e0 99) k) all_calls = true.
 Proof. vm_compute. reflexivity. Qed.
-Example test_st2_root : forallb (fun k => is_corner0 st2r k || check rcfg st2r (e0 99) k) all_calls = true.
+Example test_st2_root : forallb (fun k => is_corner st2r k || check rcfg st2r (e0 99) k) all_calls = true.
 Proof. vm_compute. reflexivity. Qed.
